@@ -139,7 +139,8 @@ void harness(void)
     memset(&o, 0, sizeof o);
     CHECK(P(init)(&o) == 1, "init succeeds");
     { SYM_U8A(sym_fill); memcpy(o.ctx, sym_fill, sizeof(CTX_T)); }    /* arbitrary key schedule content */
-    ASSUME(((CTX_T *)o.ctx)->rounds <= (CIPHER == 1 ? 56 : (CIPHER == 2 ? 40 : 8)));     /* representation invariant: a round count the API can produce */
+    ((CTX_T *)o.ctx)->rounds = WROUNDS;      /* representation invariant: a round count the API can produce (enumerated by the plan: a symbolic
+                                                count would drive loops in a cleanup that wipes per round) */
     P(cleanup)(&o);
     CHECK(n_live == 0 && n_badfree == 0, "the context is released exactly once");
     CHECK(n_dirty == 0, "every byte of the key schedule is zero before free");
